@@ -350,7 +350,7 @@ def campaign(ctx, collector=None, wd=None, bases=None, lap=lambda name: None):
     # the generator prints the atoms of the pair universe (every one, whatever the seed) and the selected pairs;
     # the atoms run first, alone: a pair containing an atom that alone makes read_program spin adds nothing but
     # CPU time and is not run (same rule in both tiers, so the quick tier stays a subset of the thorough one)
-    pairs["sel"] = [b["id"] for b in bases if b["truth"] in c20.FORMATS]
+    pairs["sel"] = [b["id"] for b in bases if b["truth"] in c20.FORMATS and not b.get("intact_only")]
     cases = generate(ctx, wd, bases, "pairs", pairs)
     lap("G2:generate")
     atoms = [c for c in cases if len(c["ops"]) == 1 and opkey(c) not in done]
